@@ -44,6 +44,13 @@ Inductive ev :=
 
 Definition exceeded : exn := EJose ExceededSizeError.
 
+(* the fields of a JWE message object that the zip step can touch *)
+Record emsg := { em_plaintext : bytes; em_zip : option string;   (* obj.plaintext, obj.protected.get("zip") *)
+                 em_ciphertext : bytes; em_tag : bytes }.        (* the segments written by perform_encrypt *)
+Inductive eev :=
+| EvCompress (p : bytes)          (* zip_.compress(p) *)
+| EvEncrypt (m : bytes).          (* enc.encrypt(m, cek, iv, aad) *)
+
 Section Impl.
   Variable zdec : zoracle.
   Variable zcomp : bytes -> bytes.
@@ -111,6 +118,34 @@ Section Impl.
 
   Definition decrypt_tail allowed zip ct tag cek iv aad : res bytes :=
     fst (decrypt_tailL allowed zip ct tag cek iv aad).
+
+  (* ----- the zip step of perform_encrypt, with the message object explicit -----
+       if "zip" in obj.protected:
+           zip_ = registry.get_zip(obj.protected["zip"]); plaintext = zip_.compress(obj.plaintext)
+       else: plaintext = obj.plaintext                      (a LOCAL variable)
+       ...
+       ciphertext, tag = enc.encrypt(plaintext, cek, iv, aad)
+       obj.base64_segments["ciphertext"/"tag"] = ...
+     The object keeps its plaintext; the compressed octets only flow into enc.encrypt. *)
+  Variable enc_encrypt : bytes -> bytes -> bytes -> bytes -> res (bytes * bytes).
+
+  Definition encrypt_tailL (allowed : option (list string)) (obj : emsg)
+             (cek iv aad : bytes) : res emsg * list eev :=
+    let finish (m : bytes) (pre : list eev) :=
+      match enc_encrypt m cek iv aad with
+      | Err e => (Err e, pre ++ [EvEncrypt m])
+      | Ok (ct, tag) =>
+          (Ok {| em_plaintext := em_plaintext obj; em_zip := em_zip obj;
+                 em_ciphertext := ct; em_tag := tag |}, pre ++ [EvEncrypt m])
+      end in
+    match em_zip obj with
+    | None => finish (em_plaintext obj) []
+    | Some name =>
+        match get_zip allowed name with
+        | Err e => (Err e, [])
+        | Ok _ => finish (compress (em_plaintext obj)) [EvCompress (em_plaintext obj)]
+        end
+    end.
 End Impl.
 
 (* ---------- the assumed zlib contract ---------- *)
